@@ -228,7 +228,8 @@ def _parse_directive_options(
         yaml_errors: list[ParseWarnings] = []
         try:
             yaml_options = yaml.safe_load(options_block or "") or {}
-        except (yaml.parser.ParserError, yaml.scanner.ScannerError):
+        except Exception:
+            # any error of the YAML loader (reader, composer, constructor, ...)
             yaml_options = {}
             yaml_errors.append(
                 ParseWarnings(
